@@ -762,6 +762,9 @@ func (c *specCtx) call(x *ast.CallExpr) specVal {
 		fail("len of %s", v.typ)
 	case "cap":
 		v := c.eval(args[0])
+		if _, ok := v.typ.Underlying().(*types.Chan); ok {
+			return specVal{term: fmt.Sprintf("(chancap %s)", v.term), typ: tInt}
+		}
 		return specVal{term: fmt.Sprintf("(s_cap %s)", v.term), typ: tInt}
 	case "held":
 		v := c.eval(args[0])
@@ -858,6 +861,14 @@ func (c *specCtx) call(x *ast.CallExpr) specVal {
 		}
 		s, _ := strconv.Unquote(lit.Value)
 		sv := vc.eventCounter(s)
+		return specVal{term: fmt.Sprintf("(- %s %s)", vc.get(c.st, sv), vc.get(c.old, sv)), typ: tInt}
+	case "callsum":
+		// callsum("name", i): sum of the i-th (integer) argument over all calls since entry
+		lit := args[0].(*ast.BasicLit)
+		s, _ := strconv.Unquote(lit.Value)
+		i, _ := strconv.Atoi(args[1].(*ast.BasicLit).Value)
+		sv := fmt.Sprintf("G_sum_%s_%d", sanitizeID(s), i)
+		vc.svDeclare(sv, "Int")
 		return specVal{term: fmt.Sprintf("(- %s %s)", vc.get(c.st, sv), vc.get(c.old, sv)), typ: tInt}
 	case "callarg":
 		// callarg("name", k, i): i-th argument of the k-th call (0-based, counted from entry)
